@@ -11,6 +11,7 @@ import BespokeVerif.Model.Run
 import BespokeVerif.Model.Select
 import BespokeVerif.Lemmas.Run
 import BespokeVerif.Lemmas.ParseFuel
+import BespokeVerif.Lemmas.Muted
 namespace BV.C14
 open BV
 
@@ -131,5 +132,25 @@ theorem text_front_end_never_out_of_fuel (cfg : PCfg) (hmn : cfg.mnemonics.conta
 /-- evaluation of an expression is structural: no fuel involved -/
 theorem eval_never_out_of_fuel (env : String → Option Int) (e : E) : evalE env e ≠ .error .outOfFuel :=
   evalE_noOof env e
+
+
+/-! ## muted statements fail closed too -/
+
+/-- one line whose bytes cannot be built (an unresolved name, a value that does not fit, a violated operand
+    constraint) fails the second pass, whether the line is muted or not: muting hides bytes, not errors -/
+theorem faulty_line_fails_muted_or_not (cfg : Cfg) (L : Labels) (ps : List Placed) (p : Placed) (hp : p ∈ ps) (e : Err)
+    (he : lineBytes cfg L p = .error e) : ∃ e', emitAll cfg L ps = .error e' :=
+  emitAll_error_of_line cfg L ps p hp e he
+
+/-- … so an accepted program has no line, muted or not, whose bytes could not be built -/
+theorem accepted_program_built_every_line (cfg : Cfg) (files : List (List Stmt)) (start : Int) (stop : Option Int)
+    (fill : Nat) (o : Outcome) (h : assemble cfg files start stop fill = .ok o) :
+    ∃ sorted L, assemblePlaced cfg files = .ok (sorted, L) ∧ ∀ p ∈ sorted, ∃ bs, lineBytes cfg L p = .ok bs :=
+  assemble_all_lines_built cfg files start stop fill o h
+
+/-- non-vacuity: a muted data line that names an undefined label cannot be built -/
+def exCfgM : Cfg := { bits := 8, origin := 0, little := true, pageSize := 1, regs := [], preZones := [], preConsts := [], preData := [] }
+def exMuted : Placed := { line := { stmt := .data 1 [.label "nowhere"], scope := .file 0, zone := "GLOBAL", muted := true, file := 0 }, addr := 2, size := 1 }
+example : (lineBytes exCfgM {} exMuted).toOption = none ∧ exMuted.line.muted = true := by decide +kernel
 
 end BV.C14
